@@ -16,7 +16,12 @@ from concurrent.futures import ThreadPoolExecutor
 
 ROOT = os.path.dirname(os.path.dirname(os.path.abspath(__file__)))
 # seeds whose change belongs to another property's clause
-ALSO = {'C16H': ['C13'], 'C07H': ['C17'], 'C16J': ['C13'], 'C13I': ['C16'], 'C16K': ['C13'], 'C16L': ['C17', 'C09'], 'C16P': ['C12']}
+ALSO = {'C16H': ['C13'], 'C07H': ['C17'], 'C16J': ['C13'], 'C13I': ['C16'], 'C16K': ['C13'], 'C16L': ['C17', 'C09'], 'C16P': ['C12'], 'C16R': ['C13']}
+# seeds whose demonstration relies on behaviour the property text does not fix (kept for the record, not counted)
+NOT_ENTAILED = {
+    'C20Q': "an environment variable that is set to the empty string: the property does not say whether that counts as set; mido itself treats '' differently for MIDO_DEFAULT_IOPORT and MIDO_DEFAULT_INPUT",
+    'C20R': 'whether use_environ=False also switches off MIDO_BACKEND: the property lists use_environ among the inputs but fixes no precedence for it over MIDO_BACKEND, and BackendSel leaves exactly these cells open (either module is accepted)',
+}
 # seeds that no longer apply to /repo's HEAD because a later fix: commit rewrote the lines they change
 SUPERSEDED = {'C14K': 'fix 3f5d47b (D25) is the complete form of this half-change; the seed led to that finding'}
 
@@ -66,6 +71,9 @@ def main(argv):
                       flush=True)
                 continue
             ck = res.get('checks', {})
+            if sid in NOT_ENTAILED and not any(c.get('exit') == 1 for c in ck.values()):
+                print('%s not entailed by the property text: %s' % (sid, NOT_ENTAILED[sid]), flush=True)
+                continue
             caught = [p for p, c in ck.items() if c.get('exit') == 1]
             crashed = [p for p, c in ck.items() if c.get('exit') not in (0, 1)]
             print('%s tests=%s caught_by=%s%s' % (sid, res.get('tests_pass'), ','.join(caught) or '-',
